@@ -294,6 +294,9 @@ theorem step_pb (s : St) (op : Op) (hi : Inv s) (hp : PB s) : PB (step s op).1 :
   | save =>
     exact { rel_ok := hp.rel_ok, map_ok := hp.map_ok, part_ok := hp.part_ok, id_pos := hp.id_pos,
             rid_nodup := hp.rid_nodup, map_keys := hp.map_keys }
+  | reopen =>
+    exact { rel_ok := hp.rel_ok, map_ok := hp.map_ok, part_ok := hp.part_ok, id_pos := hp.id_pos,
+            rid_nodup := hp.rid_nodup, map_keys := hp.map_keys }
   | observe => exact pb_observe s hp
 
 theorem init_pb : PB init where
@@ -614,6 +617,7 @@ theorem step_not_bad (s : St) (op : Op) (hi : Inv s) (hp : PB s) (e : Err) (h : 
       · rename_i e'' hr; cases hn; exact reader_not_bad s hp _ _ hr
       · cases hn
   | save => simp only [step] at h; cases h
+  | reopen => simp only [step] at h; cases h
   | observe => simp only [step] at h; cases h
 
 
